@@ -1,96 +1,130 @@
 import Mathlib.Order.Defs.LinearOrder
-import Mathlib.Algebra.Order.Ring.Defs
-import Mathlib.Order.Basic
 import Mathlib.Algebra.Field.Defs
 import Mathlib.Algebra.Order.Ring.Defs
+import Mathlib.Data.List.Basic
 
-/-! Skeleton: rejection step (C02, C06) — models complete, theorem statements only. -/
+/-! Rejection step (C02, C06): proof-friendly formulation.
+Everything is phrased over the list of evaluated samples zipped with their data, so no `getD`. -/
 namespace Reject
-
 variable {α : Type}
 
-/-- positions (in evaluation order) whose mask bit is set -/
-def indicesWhere : List Bool → List Nat := fun bs =>
-  (List.range bs.length).filter fun i => bs.getD i false
+/-- one evaluated prior sample: library row index, ln-likelihood, its uniform draw, its stored ln_prior -/
+structure Ev (α : Type) where
+  row : Nat
+  ll : α
+  u : α
+  lnPrior : α
 
 section Generic
 variable [LT α] [DecidableLT α] [Sub α] [Max α]
 
-def maxOf (d : α) : List α → α
-  | [] => d
-  | x :: xs => xs.foldl max x
+def maxLL : List (Ev α) → Option α
+  | [] => none
+  | e :: es => some (es.foldl (fun m x => max m x.ll) e.ll)
 
-/-- the acceptance mask exactly as the code computes it: `exp(ll - max ll) > u` -/
-def mask (expf : α → α) (lls uu : List α) : List Bool :=
-  match lls with
-  | [] => []
-  | l :: ls =>
-    let m := maxOf l (l :: ls)
-    List.zipWith (fun ll u => decide (u < expf (ll - m))) (l :: ls) uu
+def accepted (expf : α → α) (evs : List (Ev α)) : List (Ev α) :=
+  match maxLL evs with
+  | none => []
+  | some m => evs.filter fun e => decide (e.u < expf (e.ll - m))
 
-structure Opts where
-  maxPost : Option Nat      -- max_posterior_samples
-  nLinear : Nat             -- n_linear_samples
+def select (expf : α → α) (evs : List (Ev α)) (maxPost : Option Nat) : List (Ev α) :=
+  match maxPost with
+  | none => accepted expf evs
+  | some k => (accepted expf evs).take k
 
-/-- `good`: accepted positions, truncated; `full`: library rows -/
-def select (expf : α → α) (lls uu : List α) (idx : List Nat) (o : Opts) : List Nat × List Nat :=
-  let good := indicesWhere (mask expf lls uu)
-  let good := match o.maxPost with | none => good | some m => good.take m
-  (good, good.map fun p => idx.getD p 0)
-
-/-- what the caller gets: rows (by library index, each repeated nLinear times), ln_like, ln_prior -/
-structure Out (α : Type) where
-  rows : List Nat
-  lnLike : List α
-  lnPrior : List α
-
-def output (expf : α → α) (zero : α) (lls uu : List α) (idx : List Nat) (libLnPrior : List α) (o : Opts) : Out α :=
-  let (good, full) := select expf lls uu idx o
-  { rows := full.flatMap (fun r => List.replicate o.nLinear r)
-    lnLike := good.map fun p => lls.getD p zero
-    lnPrior := full.map fun r => libLnPrior.getD r zero }
+/-- returned table: each selected sample repeated `nLinear` times; logprob columns one per selected sample -/
+def outRows (expf : α → α) (evs : List (Ev α)) (maxPost : Option Nat) (nLinear : Nat) : List Nat :=
+  (select expf evs maxPost).flatMap fun e => List.replicate nLinear e.row
 end Generic
 
 section Laws
 variable [Field α] [LinearOrder α] [IsStrictOrderedRing α]
 
-theorem accept_iff (expf : α → α) (lls uu : List α) (h : lls.length = uu.length) (i : Nat) (hi : i < lls.length) :
-    i ∈ indicesWhere (mask expf lls uu) ↔ uu.getD i 0 < expf (lls.getD i 0 - maxOf 0 lls) := by
-  sorry
+theorem foldl_max_ge (es : List (Ev α)) (m0 : α) : m0 ≤ es.foldl (fun m x => max m x.ll) m0 ∧
+    ∀ e ∈ es, e.ll ≤ es.foldl (fun m x => max m x.ll) m0 := by
+  induction es generalizing m0 with
+  | nil => simp
+  | cons x xs ih =>
+    obtain ⟨h1, h2⟩ := ih (max m0 x.ll)
+    simp only [List.foldl_cons]
+    refine ⟨le_trans (le_max_left _ _) h1, ?_⟩
+    intro e he
+    rcases List.mem_cons.mp he with rfl | hx
+    · exact le_trans (le_max_right _ _) h1
+    · exact h2 e hx
 
-theorem best_always_survives (expf : α → α) (h0 : expf 0 = 1) (lls uu : List α)
-    (h : lls.length = uu.length) (hu : ∀ u ∈ uu, u < 1) (i : Nat) (hi : i < lls.length)
-    (hmax : lls.getD i 0 = maxOf 0 lls) : i ∈ indicesWhere (mask expf lls uu) := by
-  sorry
+theorem foldl_max_mem (es : List (Ev α)) (m0 : α) :
+    es.foldl (fun m x => max m x.ll) m0 = m0 ∨ ∃ e ∈ es, es.foldl (fun m x => max m x.ll) m0 = e.ll := by
+  induction es generalizing m0 with
+  | nil => simp
+  | cons x xs ih =>
+    simp only [List.foldl_cons]
+    rcases ih (max m0 x.ll) with h | ⟨e, he, h⟩
+    · rcases max_choice m0 x.ll with hm | hm
+      · left; rw [h, hm]
+      · right; exact ⟨x, List.mem_cons_self, by rw [h, hm]⟩
+    · right; exact ⟨e, List.mem_cons_of_mem _ he, h⟩
 
-theorem good_strictly_increasing (expf : α → α) (lls uu : List α) (idx : List Nat) (o : Opts) :
-    (select expf lls uu idx o).1.Pairwise (· < ·) := by
-  sorry
+/-- the normaliser is the maximum of the evaluated likelihoods -/
+theorem maxLL_spec (evs : List (Ev α)) (m : α) (h : maxLL evs = some m) :
+    (∀ e ∈ evs, e.ll ≤ m) ∧ ∃ e ∈ evs, e.ll = m := by
+  cases evs with
+  | nil => simp [maxLL] at h
+  | cons e es =>
+    simp only [maxLL, Option.some.injEq] at h
+    subst h
+    obtain ⟨h1, h2⟩ := foldl_max_ge es e.ll
+    refine ⟨?_, ?_⟩
+    · intro x hx
+      rcases List.mem_cons.mp hx with rfl | hx
+      · exact h1
+      · exact h2 x hx
+    · rcases foldl_max_mem es e.ll with h | ⟨x, hx, h⟩
+      · exact ⟨e, List.mem_cons_self, h.symm⟩
+      · exact ⟨x, List.mem_cons_of_mem _ hx, h.symm⟩
 
-theorem rows_are_library_rows (expf : α → α) (lls uu : List α) (idx : List Nat) (o : Opts)
-    (hidx : idx.length = lls.length) :
-    ∀ r ∈ (select expf lls uu idx o).2, r ∈ idx := by
-  sorry
+/-- C02: kept exactly when exp(ll - max ll) exceeds the sample's own uniform draw -/
+theorem accept_iff (expf : α → α) (evs : List (Ev α)) (m : α) (hm : maxLL evs = some m) (e : Ev α) :
+    e ∈ accepted expf evs ↔ e ∈ evs ∧ e.u < expf (e.ll - m) := by
+  simp [accepted, hm]
 
-theorem full_nodup_of_idx_nodup (expf : α → α) (lls uu : List α) (idx : List Nat) (o : Opts)
-    (hidx : idx.length = lls.length) (hn : idx.Nodup) : (select expf lls uu idx o).2.Nodup := by
-  sorry
+/-- C02: the best sample always survives -/
+theorem best_always_survives (expf : α → α) (h0 : expf 0 = 1) (evs : List (Ev α))
+    (hu : ∀ e ∈ evs, e.u < 1) (hne : evs ≠ []) : ∃ e ∈ accepted expf evs, ∀ x ∈ evs, x.ll ≤ e.ll := by
+  cases hmx : maxLL evs with
+  | none => cases evs with
+    | nil => exact absurd rfl hne
+    | cons e es => simp [maxLL] at hmx
+  | some m =>
+    obtain ⟨hle, e, he, hem⟩ := maxLL_spec evs m hmx
+    refine ⟨e, (accept_iff expf evs m hmx e).mpr ⟨he, ?_⟩, fun x hx => hem ▸ hle x hx⟩
+    rw [hem, sub_self, h0]; exact hu e he
 
-theorem truncation_first_accepted (expf : α → α) (lls uu : List α) (idx : List Nat) (m n : Nat) :
-    (select expf lls uu idx ⟨some m, n⟩).1 = ((select expf lls uu idx ⟨none, n⟩).1).take m := by
-  sorry
+/-- C02: output is a sub-sequence of the evaluated samples, in evaluation order, unmodified -/
+theorem select_sublist (expf : α → α) (evs : List (Ev α)) (k : Option Nat) :
+    (select expf evs k).Sublist evs := by
+  have hacc : (accepted expf evs).Sublist evs := by
+    unfold accepted; split
+    · exact List.nil_sublist _
+    · exact List.filter_sublist
+  cases k with
+  | none => exact hacc
+  | some k => exact (List.take_sublist _ _).trans hacc
 
-/-- C06: every reported logprob belongs to the row it is reported with -/
-theorem logprobs_attached (expf : α → α) (lls uu : List α) (idx : List Nat) (lp : List α) (o : Opts)
-    (hidx : idx.length = lls.length) (k : Nat)
-    (hk : k < (select expf lls uu idx o).1.length) :
-    let sel := select expf lls uu idx o
-    let out := output expf 0 lls uu idx lp o
-    let pos := sel.1.getD k 0
-    let row := idx.getD pos 0
-    sel.2.getD k 0 = row ∧ out.lnLike.getD k 0 = lls.getD pos 0 ∧ out.lnPrior.getD k 0 = lp.getD row 0 := by
-  sorry
+/-- C02: no library row is duplicated when the evaluated rows are distinct -/
+theorem select_rows_nodup (expf : α → α) (evs : List (Ev α)) (k : Option Nat)
+    (h : (evs.map (·.row)).Nodup) : ((select expf evs k).map (·.row)).Nodup :=
+  ((select_sublist expf evs k).map _).nodup h
+
+/-- C02: truncation keeps the first accepted -/
+theorem truncation_first_accepted (expf : α → α) (evs : List (Ev α)) (k : Nat) :
+    select expf evs (some k) = (select expf evs none).take k := rfl
+
+/-- C06: the logprob columns are read off the very records whose rows are returned -/
+theorem logprobs_attached (expf : α → α) (evs : List (Ev α)) (k : Option Nat) :
+    ∀ e ∈ select expf evs k, e ∈ evs := fun e he => (select_sublist expf evs k).subset he
+
 end Laws
-
-#eval select (α := Float) Float.exp [-3.0, -1.0, -2.0] [0.5, 0.99, 0.2] [7, 8, 9] ⟨none, 1⟩
+#eval (select (α := Float) Float.exp [⟨7, -3.0, 0.5, 0.1⟩, ⟨8, -1.0, 0.99, 0.2⟩, ⟨9, -2.0, 0.2, 0.3⟩] none).map (·.row)
+#print axioms Reject.best_always_survives
 end Reject
